@@ -498,6 +498,28 @@ func c06LargeCheck(c *Case) []Violation {
 	return vs
 }
 
+// c06Widths: values whose decimal spellings have different widths (1, 2, 12, 21 and 0.5, 5, 0.55): every triple of profiles
+// over two criteria, with and without thresholds — all clauses of the metamorphic check (listing permutations included).
+func c06Widths(s *Shard) {
+	for _, vs := range [][]float64{{1, 2, 12, 21}, {0.5, 5, 0.55, 55}} {
+		Product([]int{4, 4, 4, 4, 4, 4, 2}, func(o []int) {
+			if !s.Take() {
+				return
+			}
+			vals := [][]float64{{vs[o[0]], vs[o[1]]}, {vs[o[2]], vs[o[3]]}, {vs[o[4]], vs[o[5]]}}
+			th := []thr{{}, {}}
+			if o[6] == 1 {
+				th = []thr{{Q: 1, P: 5, V: 15}, {P: 8}}
+			}
+			cfg := eleCfg{N: 3, Vals: vals, Types: []string{"gain", "gain"}, Thr: th, K: []float64{2, 1}, Dist: eleDists[0]}
+			c := &Case{Prop: "C06", Kind: "metamorphic", Params: M{"cfg": cfg}}
+			s.Evals++
+			s.Begin(c)
+			s.Report(c06Check(c))
+		})
+	}
+}
+
 func c06Large(s *Shard) {
 	sizes := []int{63, 64, 65, 66, 130}
 	if !quick(s) {
@@ -522,6 +544,7 @@ func c06Large(s *Shard) {
 func c06Run(s *Shard) {
 	cur = s
 	c06Large(s)
+	c06Widths(s)
 	c06VetoAndMatrixGrids(s)
 	liteEnum = quick(s)
 	sampled := 0
